@@ -210,4 +210,137 @@ theorem knownDistinct_sound (cat : Nat → Nat → Bool) (k : Consts) (hk : Orac
     · rw [mem_of_equals_old cat b k.ecmaWord h2] at mb
       exact rangesDisjoint_spec ht.space_word r ⟨ma, mb⟩
 
+/-! ## `GetSetChars` -/
+
+/-- the runes of the ranges, in order, that `keep` lets through: what the two loops of `GetSetChars` collect -/
+def enumChars (keep : Nat → Bool) (rs : List (Nat × Nat)) : List Nat :=
+  rs.flatMap (fun r => (List.range' r.1 (r.2 + 1 - r.1)).filter keep)
+
+/-- number of loop iterations over the ranges -/
+def rangesSize (rs : List (Nat × Nat)) : Nat := (rs.map (fun r => r.2 + 1 - r.1)).sum
+
+theorem setCharsRange_spec (keep : Nat → Bool) (k : Nat) : ∀ (n ch w : Nat) (acc : List Nat) (w' : Nat) (acc' : List Nat),
+    setCharsRange keep k n ch (w, acc) = some (w', acc') → w ≤ k →
+    w' = w + n ∧ w' ≤ k ∧ acc' = acc ++ (List.range' ch n).filter keep := by
+  intro n
+  induction n with
+  | zero =>
+    intro ch w acc w' acc' h hw
+    simp only [setCharsRange, Option.some.injEq, Prod.mk.injEq] at h
+    obtain ⟨rfl, rfl⟩ := h
+    simp [hw]
+  | succ n ih =>
+    intro ch w acc w' acc' h hw
+    simp only [setCharsRange] at h
+    split at h
+    · cases h
+    · rename_i hle
+      obtain ⟨h1, h2, h3⟩ := ih (ch + 1) (w + 1) _ w' acc' h (by omega)
+      refine ⟨by omega, h2, ?_⟩
+      rw [h3, List.range'_succ, List.filter_cons]
+      by_cases hk : keep ch = true <;> simp [hk]
+
+theorem setCharsLoop_spec (keep : Nat → Bool) (k : Nat) : ∀ (rs : List (Nat × Nat)) (w : Nat) (acc : List Nat) (w' : Nat) (acc' : List Nat),
+    setCharsLoop keep k rs (w, acc) = some (w', acc') → w ≤ k →
+    w' = w + rangesSize rs ∧ w' ≤ k ∧ acc' = acc ++ enumChars keep rs := by
+  intro rs
+  induction rs with
+  | nil =>
+    intro w acc w' acc' h hw
+    simp only [setCharsLoop, Option.some.injEq, Prod.mk.injEq] at h
+    obtain ⟨rfl, rfl⟩ := h
+    simp [rangesSize, enumChars, hw]
+  | cons r rs ih =>
+    intro w acc w' acc' h hw
+    simp only [setCharsLoop] at h
+    split at h
+    · cases h
+    · rename_i st hst
+      obtain ⟨w1, acc1⟩ := st
+      obtain ⟨h1, h2, h3⟩ := setCharsRange_spec keep k _ _ _ _ _ _ hst hw
+      obtain ⟨h4, h5, h6⟩ := ih w1 acc1 w' acc' h h2
+      refine ⟨by simp only [rangesSize, List.map_cons, List.sum_cons] at *; omega, h5, ?_⟩
+      rw [h6, h3]
+      simp [enumChars, List.flatMap_cons]
+
+theorem mem_enumChars (keep : Nat → Bool) (rs : List (Nat × Nat)) (x : Nat) :
+    x ∈ enumChars keep rs ↔ inRanges rs x = true ∧ keep x = true := by
+  simp only [enumChars, List.mem_flatMap, List.mem_filter, List.mem_range'_1, inRanges_iff]
+  constructor
+  · rintro ⟨r, hr, ⟨h1, h2⟩, h3⟩
+    exact ⟨⟨r, hr, h1, by omega⟩, h3⟩
+  · rintro ⟨⟨r, hr, h1, h2⟩, h3⟩
+    exact ⟨r, hr, ⟨h1, by omega⟩, h3⟩
+
+theorem length_enumChars_le (keep : Nat → Bool) (rs : List (Nat × Nat)) :
+    (enumChars keep rs).length ≤ rangesSize rs := by
+  induction rs with
+  | nil => simp [enumChars, rangesSize]
+  | cons r rs ih =>
+    simp only [enumChars, List.flatMap_cons, List.length_append, rangesSize, List.map_cons, List.sum_cons] at *
+    have := List.length_filter_le keep (List.range' r.1 (r.2 + 1 - r.1))
+    simp only [List.length_range'] at this
+    omega
+
+/-- on a canonical range list the collected characters are strictly ascending -/
+theorem enumChars_sorted (keep : Nat → Bool) (rs : List (Nat × Nat)) (hc : Canon rs) :
+    (enumChars keep rs).Pairwise (· < ·) := by
+  unfold enumChars
+  rw [List.pairwise_flatMap]
+  refine ⟨fun r _ => List.Pairwise.filter _ (List.pairwise_lt_range' (s := r.1) (n := r.2 + 1 - r.1)), ?_⟩
+  refine List.Pairwise.imp ?_ hc.1
+  intro a b hab x hx y hy
+  simp only [List.mem_filter, List.mem_range'_1] at hx hy
+  omega
+
+/-- what a non-nil answer of `GetSetChars` is -/
+theorem getSetChars_some (cat : Nat → Nat → Bool) (c : Class) (k : Nat) (chars : List Nat)
+    (h : getSetChars cat c k = some chars) :
+    c.flat.cats = [] ∧ (c.isNegated = true → c.hasSubtraction = false) ∧ chars.length ≤ k ∧
+      chars = enumChars (fun ch => !(c.hasSubtraction && !(charIn cat c ch))) c.flat.ranges := by
+  unfold getSetChars at h
+  split at h
+  · cases h
+  rename_i h1
+  split at h
+  · cases h
+  rename_i h2
+  simp only [Option.map_eq_some_iff] at h
+  obtain ⟨⟨w', acc'⟩, hl, rfl⟩ := h
+  obtain ⟨h3, h4, h5⟩ := setCharsLoop_spec _ k _ 0 [] w' acc' hl (Nat.zero_le _)
+  simp only [Bool.or_eq_true, Bool.not_eq_true', decide_eq_true_eq, not_or] at h1
+  refine ⟨by simpa using h1.1, ?_, ?_, by simpa using h5⟩
+  · intro hn
+    simpa [hn] using h2
+  · simp only [List.nil_append] at h5
+    rw [h5]
+    show (enumChars _ _).length ≤ k
+    have := length_enumChars_le (fun ch => !(c.hasSubtraction && !(charIn cat c ch))) c.flat.ranges
+    omega
+
+/-! ## the ASCII letter pair -/
+
+def asciiLetter (a : Nat) : Bool := (decide (65 ≤ a) && decide (a ≤ 90)) || (decide (97 ≤ a) && decide (a ≤ 122))
+
+def caseChk (a b : Nat) : Bool :=
+  !(asciiLetter a && asciiLetter b && decide (a < b) && (a ||| 32) == (b ||| 32)) ||
+    (decide (65 ≤ a) && decide (a ≤ 90) && b == a + 32)
+
+set_option maxRecDepth 100000 in
+theorem caseChk_all : (List.range' 65 58).all (fun a => (List.range' 65 58).all (caseChk a)) = true := by decide
+
+/-- two different ASCII letters with the same `| 0x20` are the upper and the lower case of one letter -/
+theorem ascii_pair (a b : Nat) (ha : asciiLetter a = true) (hb : asciiLetter b = true) (hlt : a < b)
+    (hor : (a ||| 32) = (b ||| 32)) : 65 ≤ a ∧ a ≤ 90 ∧ b = a + 32 := by
+  have h := caseChk_all
+  simp only [List.all_eq_true, List.mem_range'_1] at h
+  have ha' : 65 ≤ a ∧ a < 65 + 58 := by
+    simp only [asciiLetter, Bool.or_eq_true, Bool.and_eq_true, decide_eq_true_eq] at ha; omega
+  have hb' : 65 ≤ b ∧ b < 65 + 58 := by
+    simp only [asciiLetter, Bool.or_eq_true, Bool.and_eq_true, decide_eq_true_eq] at hb; omega
+  have := h a ha' b hb'
+  simp only [caseChk, ha, hb, hlt, hor, decide_true, Bool.and_self, beq_self_eq_true, Bool.not_true, Bool.false_or,
+    Bool.and_eq_true, decide_eq_true_eq, beq_iff_eq] at this
+  omega
+
 end RegexVerif.Class
